@@ -1862,6 +1862,12 @@ func ruleC08_8(c *Ctx, r *Rep) {
 				if cal == nil || !strings.Contains(fnPkgPath(cal), "alecthomas/participle") || cal.Signature.Results().Len() != 1 {
 					continue
 				}
+				if nm := namedOf(cal.Signature.Results().At(0).Type()); nm != nil && nm.Obj().Name() == "ParseOption" {
+					// per-call parse options (AllowTrailing, …) can only be made by participle's constructors:
+					// the module's parse calls take none
+					r.Fail("C08.8", fmt.Sprintf("C08.8:parse-option:%s@%s", cal.Name(), c.Key(top(f))), call.Pos(), "a filter is parsed with participle."+cal.Name()+": a per-call parse option changes what this caller accepts (AllowTrailing accepts any string that merely starts with a filter; the strict parser of the delivery path then fails on the stored string)")
+					continue
+				}
 				if nm := namedOf(cal.Signature.Results().At(0).Type()); nm == nil || nm.Obj().Name() != "Option" {
 					continue
 				}
@@ -3092,4 +3098,144 @@ func ruleC08_9(c *Ctx, r *Rep) {
 		ok := j >= 0 && quant == "?" && strings.Contains(all, `("AND"@@)+`) && strings.Contains(all, `|("OR"@@)+`)
 		r.Check("C08.9", "C08.9:and-or-not-mixed", token.NoPos, ok, "@@ ( (\"AND\" @@)+ | (\"OR\" @@)+ )?", "the Condition grammar is not `term ( (AND term)+ | (OR term)+ )?` (found `"+all+"`): with a repeated group, AND and OR can be mixed at one level — such filters are accepted and stored, and evaluation and printing ignore part of them")
 	}
+}
+
+// ---------------------------------------------------------------------------
+// C12.8: a resource is addressed by its whole name. Every statement on topics / subscriptions / snapshots that is
+// narrowed by the name column compares it for equality (or membership); a prefix / substring / case-folded match
+// addresses more than the named resource (deleting `…/orders` would take `…/orders-dlq` with it).
+func ruleC12_8(c *Ctx, r *Rep) {
+	keys := c.stmtKeys()
+	n := 0
+	for _, s := range c.EntShape().Stmts {
+		if !(s.Table == "topics" || s.Table == "subscriptions" || s.Table == "snapshots") || c.testSupport(s.Fn) {
+			continue
+		}
+		for _, a := range s.Atoms() {
+			if a.Kind != "atom" || a.Col != "name" || a.Tbl != "" && a.Tbl != s.Table {
+				continue
+			}
+			n++
+			ok := a.Op == "eq" || a.Op == "in" || a.Op == "ceq"
+			if a.Op == "hasprefix" && s.Kind == "select" && len(s.Terms) > 0 {
+				// the List operations scope their page to a project by name prefix: a multi-row read, never a
+				// single-resource lookup or a mutation
+				// (the prefix is a scope: it ends with the path separator, so it cannot be a resource's own name)
+				ok = endsWithSeparator(a.Arg, 0)
+				for _, t := range s.Terms {
+					if !strings.HasPrefix(t.Name, "All") {
+						ok = false
+					}
+				}
+			}
+			r.Check("C12.8", "C12.8:name-compared-whole:"+keys[s], s.Pos, ok, "", "a statement on "+s.Table+" matches the name column with `"+a.Op+"`, not equality: it addresses every resource whose name merely matches (a delete of `…/orders` also deletes `…/orders-dlq`; a Get answers for another resource)")
+		}
+	}
+	r.Floor("C12.8", n, 10)
+}
+
+// endsWithSeparator: v is a string built as <something> + "…/" on every path (directly or through a small helper).
+func endsWithSeparator(v ssa.Value, d int) bool {
+	if v == nil || d > 4 {
+		return false
+	}
+	switch x := strip(v).(type) {
+	case *ssa.BinOp:
+		if x.Op != token.ADD {
+			return false
+		}
+		if k, ok := x.Y.(*ssa.Const); ok && k.Value != nil && k.Value.Kind() == constant.String {
+			return strings.HasSuffix(constant.StringVal(k.Value), "/")
+		}
+		return endsWithSeparator(x.Y, d+1)
+	case *ssa.Phi:
+		for _, e := range x.Edges {
+			if !endsWithSeparator(e, d+1) {
+				return false
+			}
+		}
+		return len(x.Edges) > 0
+	case *ssa.FreeVar:
+		if b := freeVarBinding(x); b != nil {
+			return endsWithSeparator(b, d+1)
+		}
+	case *ssa.Call:
+		f := x.Call.StaticCallee()
+		if f == nil || len(f.Blocks) == 0 || len(f.Blocks) > 4 {
+			return false
+		}
+		n := 0
+		for _, b := range f.Blocks {
+			if ret, ok := b.Instrs[len(b.Instrs)-1].(*ssa.Return); ok && len(ret.Results) == 1 {
+				n++
+				if !endsWithSeparator(ret.Results[0], d+1) {
+					return false
+				}
+			}
+		}
+		return n > 0
+	}
+	return false
+}
+
+// ---------------------------------------------------------------------------
+// C04.10: unit of the client's deadlines. A request field counted in seconds (AckDeadlineSeconds, DelaySeconds, …)
+// becomes a time.Duration by multiplication with exactly time.Second. Any other constant keeps compiling and
+// withholds (or releases) the message for the wrong span.
+func ruleC04_10(c *Ctx, r *Rep) {
+	n := 0
+	secondsField := func(v ssa.Value) string {
+		for d := 0; d < 6 && v != nil; d++ {
+			switch x := v.(type) {
+			case *ssa.Convert:
+				v = x.X
+			case *ssa.ChangeType:
+				v = x.X
+			case *ssa.UnOp:
+				if x.Op != token.MUL {
+					return ""
+				}
+				v = x.X
+			case *ssa.FieldAddr:
+				if nm := fieldName(x.X.Type(), x.Field); strings.HasSuffix(nm, "Seconds") {
+					return nm
+				}
+				return ""
+			case *ssa.Field:
+				if nm := fieldName(x.X.Type(), x.Field); strings.HasSuffix(nm, "Seconds") {
+					return nm
+				}
+				return ""
+			default:
+				return ""
+			}
+		}
+		return ""
+	}
+	for _, f := range c.Funcs {
+		pk := c.PkgOf(f)
+		if !(pk == "services" || pk == "actions") || c.testSupport(f) || c.EntShape().isGenerated(f) {
+			continue
+		}
+		for _, b := range f.Blocks {
+			for _, in := range b.Instrs {
+				bo, ok := in.(*ssa.BinOp)
+				if !ok || bo.Op != token.MUL {
+					continue
+				}
+				for _, pr := range [][2]ssa.Value{{bo.X, bo.Y}, {bo.Y, bo.X}} {
+					nm := secondsField(pr[0])
+					k, isK := pr[1].(*ssa.Const)
+					if nm == "" || !isK || k.Value == nil {
+						continue
+					}
+					n++
+					f64, _ := constant.Float64Val(constant.ToFloat(k.Value))
+					r.Check("C04.10", fmt.Sprintf("C04.10:seconds-unit:%s@%s", nm, c.Key(top(f))), bo.Pos(), f64 == 1e9, "",
+						fmt.Sprintf("the field %s (a count of seconds) is scaled by %s, not by time.Second: the deadline the client asked for is stored in another unit — the message is withheld (or released) for the wrong span", nm, k.Value.ExactString()))
+				}
+			}
+		}
+	}
+	r.Floor("C04.10", n, 2)
 }
